@@ -7,11 +7,19 @@
 //!   (`,`-separated ids, `_` = omitted, `-` = empty list, `<det>` = `is_deterministic()`);
 //! * `<S>`: ids supplied to `partial_run` (in order), `<O>`: requested outputs,
 //!   `<rest>`: ids supplied to the second `run` in addition to the returned leaves;
-//! * `<own>`: 1 = the supplied values are passed as owned `Value`s, 0 = as views.
+//! * `<own>`: 1 = every supplied value (to `partial_run`, to the single `run` and to the composed
+//!   `run`) is passed as an owned `Value`, 0 = as a view.
+//! * operator descriptor: `O/<ins>/<outs>/<tree>/<caps>`; `<tree>` = own `is_deterministic` flags of
+//!   the operator and of every operator nested in its subgraphs, prefix-count encoded
+//!   (`own.nsubgraphs(.nops(.tree)*)*`, e.g. `1.0`, `If{then:[RandomUniform],else:[Neg]}` =
+//!   `1.2.1.0.0.1.1.0`); `<caps>` = ids of the outer values its subgraphs capture by name.
 //! Answer: `ids=<returned leaf ids in order|-> final=<ok|err:class|panic>` where `final` is the
 //! outcome of `run(returned ++ rest, O)`; or `err:<class>` / `panic` if `partial_run` fails.
 //!
-//! Everything goes through the public API on ONNX bytes built with the shared encoder
+//!   `gp <nodes> <S> <O>`: `Graph::partial_run` on a graph built through the graph API (captures
+//!   whose names do not resolve); answer `ids=<leaf ids>`.
+//!
+//! Everything else goes through the public API on ONNX bytes built with the shared encoder
 //! (`Model::load` without optimisation for the structural tie; the same bytes loaded with
 //! optimisation for the behavioural checks).  Independent oracles (PROPFAIL), computed from
 //! the descriptor / the implementation's outputs only:
@@ -35,6 +43,8 @@ use std::collections::{BTreeSet, HashMap};
 enum Dt {
     I,
     F,
+    /// boolean scalar (condition of an `If`)
+    B,
 }
 
 #[derive(Clone, Copy, PartialEq, Eq, Debug)]
@@ -53,6 +63,118 @@ enum Kind {
     RandULike,
     RandNLike,
     Dropout,
+    If,
+}
+
+/// Body of one branch of an `If` (exactly one operator producing the branch output,
+/// an f32 tensor of shape `[rows, 3]`).
+#[derive(Clone, Debug)]
+enum Body {
+    /// `RandomUniform` (non-deterministic by the code's flag, seeded or not)
+    RandU,
+    /// `Neg(<outer value>)`: the subgraph captures a value of an enclosing graph by name
+    NegCap(usize),
+    /// `Identity(<initializer of the subgraph>)`
+    ConstId,
+    /// a nested `If` whose condition is a `true` initializer of the subgraph
+    Nested(Box<IfBody>),
+}
+
+#[derive(Clone, Debug)]
+struct IfBody {
+    then_b: Body,
+    else_b: Body,
+}
+
+impl Body {
+    /// own-flag tree in prefix-count encoding: `own.nsubs(.nops(.T)*)*`
+    fn tree(&self) -> String {
+        match self {
+            Body::RandU => "0.0".into(),
+            Body::NegCap(_) | Body::ConstId => "1.0".into(),
+            Body::Nested(b) => b.tree(),
+        }
+    }
+    fn deep_det(&self) -> bool {
+        match self {
+            Body::RandU => false,
+            Body::NegCap(_) | Body::ConstId => true,
+            Body::Nested(b) => b.deep_det(),
+        }
+    }
+    fn caps(&self, out: &mut Vec<usize>) {
+        match self {
+            Body::NegCap(v) => {
+                if !out.contains(v) {
+                    out.push(*v)
+                }
+            }
+            Body::Nested(b) => {
+                b.then_b.caps(out);
+                b.else_b.caps(out);
+            }
+            _ => {}
+        }
+    }
+    /// does the branch that is taken (conditions are all true → `then`) end in a random op?
+    fn taken_random(&self) -> bool {
+        match self {
+            Body::RandU => true,
+            Body::Nested(b) => b.then_b.taken_random(),
+            _ => false,
+        }
+    }
+    fn depth(&self) -> usize {
+        match self {
+            Body::Nested(b) => 1 + b.then_b.depth().max(b.else_b.depth()),
+            _ => 0,
+        }
+    }
+    /// ONNX subgraph computing this branch; `tag` makes names unique.
+    fn to_onnx(&self, rows: usize, seeds: bool, tag: &str) -> Graph {
+        let mut g = Graph::default();
+        g.name = format!("b{tag}");
+        let out = format!("bo{tag}");
+        match self {
+            Body::RandU => {
+                let mut n = Node::new("RandomUniform", &format!("br{tag}"), &[], &[&out])
+                    .attr("shape", Attr::Ints(vec![rows as i64, COLS as i64]));
+                if seeds {
+                    n = n.attr("seed", Attr::Float(3.5));
+                }
+                g.nodes.push(n);
+            }
+            Body::NegCap(v) => {
+                g.nodes.push(Node::new("Neg", &format!("bn{tag}"), &[&name(*v)], &[&out]));
+            }
+            Body::ConstId => {
+                let c = format!("bc{tag}");
+                g.initializers.push(Tensor::f32s(&c, &[rows as i64, COLS as i64], &vec![0.5; rows * COLS]));
+                g.nodes.push(Node::new("Identity", &format!("bi{tag}"), &[&c], &[&out]));
+            }
+            Body::Nested(b) => {
+                let c = format!("bk{tag}");
+                g.initializers.push(Tensor::bools(&c, &[], &[true]));
+                g.nodes.push(b.to_onnx_node(&c, &out, rows, seeds, &format!("{tag}n")));
+            }
+        }
+        g.outputs = vec![ValueInfo::fixed(&out, dt::FLOAT, &[rows as i64, COLS as i64])];
+        g
+    }
+}
+
+impl IfBody {
+    fn tree(&self) -> String {
+        format!("1.2.1.{}.1.{}", self.then_b.tree(), self.else_b.tree())
+    }
+    fn deep_det(&self) -> bool {
+        self.then_b.deep_det() && self.else_b.deep_det()
+    }
+    fn to_onnx_node(&self, cond: &str, out: &str, rows: usize, seeds: bool, tag: &str) -> Node {
+        Node::new("If", &format!("if{tag}"), &[cond], &[out])
+            .attr("then_branch", Attr::Graph(self.then_b.to_onnx(rows, seeds, &format!("{tag}t"))))
+            .attr("else_branch", Attr::Graph(self.else_b.to_onnx(rows, seeds, &format!("{tag}e"))))
+    }
 }
 
 #[derive(Clone, Debug)]
@@ -61,7 +183,9 @@ enum NodeD {
     V(Dt, usize),
     /// constant node
     C(Dt, usize, Vec<i32>),
-    O { kind: Kind, ins: Vec<Option<usize>>, outs: Vec<Option<usize>>, det: bool, seeded: bool },
+    /// `det` = the flag `is_deterministic()` must report (for an `If`: no operator at any
+    /// nesting depth is flagged non-deterministic); `body` only for `Kind::If`.
+    O { kind: Kind, ins: Vec<Option<usize>>, outs: Vec<Option<usize>>, det: bool, seeded: bool, body: Option<IfBody> },
 }
 
 #[derive(Clone, Debug)]
@@ -106,6 +230,29 @@ impl GraphD {
             _ => vec![],
         }
     }
+    /// outer values captured by the subgraphs of `p` (any depth)
+    fn op_caps(&self, p: usize) -> Vec<usize> {
+        let mut c = vec![];
+        if let NodeD::O { body: Some(b), .. } = &self.nodes[p] {
+            b.then_b.caps(&mut c);
+            b.else_b.caps(&mut c);
+        }
+        c
+    }
+    /// `operator_dependencies`: inputs, then captures that are not inputs
+    fn op_deps(&self, p: usize) -> Vec<usize> {
+        let mut d = self.op_ins(p);
+        let ins = d.clone();
+        d.extend(self.op_caps(p).into_iter().filter(|c| !ins.contains(c)));
+        d
+    }
+    fn op_tree(&self, p: usize) -> String {
+        match &self.nodes[p] {
+            NodeD::O { body: Some(b), .. } => b.tree(),
+            NodeD::O { det, .. } => format!("{}.0", *det as u8),
+            _ => "1.0".into(),
+        }
+    }
     fn op_outs(&self, p: usize) -> Vec<usize> {
         match &self.nodes[p] {
             NodeD::O { outs, .. } => outs.iter().flatten().copied().collect(),
@@ -127,10 +274,16 @@ impl GraphD {
             }
         };
         hcommon::join(
-            self.nodes.iter().map(|n| match n {
+            self.nodes.iter().enumerate().map(|(i, n)| match n {
                 NodeD::V(..) => "V".to_string(),
                 NodeD::C(..) => "C".to_string(),
-                NodeD::O { ins, outs, det, .. } => format!("O/{}/{}/{}", opt(ins), opt(outs), *det as u8),
+                NodeD::O { ins, outs, .. } => format!(
+                    "O/{}/{}/{}/{}",
+                    opt(ins),
+                    opt(outs),
+                    self.op_tree(i),
+                    ids_str(&self.op_caps(i))
+                ),
             }),
             ";",
         )
@@ -147,6 +300,7 @@ impl GraphD {
                 NodeD::C(d, r, data) => {
                     let dims = [*r as i64, COLS as i64];
                     g.initializers.push(match d {
+                        Dt::B => Tensor::bools(&name(id), &[], &[true]),
                         Dt::I => Tensor::i32s(&name(id), &dims, data),
                         Dt::F => Tensor::f32s(
                             &name(id),
@@ -155,7 +309,7 @@ impl GraphD {
                         ),
                     });
                 }
-                NodeD::O { kind, ins, outs, seeded, .. } => {
+                NodeD::O { kind, ins, outs, seeded, body, .. } => {
                     let ins_s: Vec<String> =
                         ins.iter().map(|x| x.map(name).unwrap_or_default()).collect();
                     let outs_s: Vec<String> =
@@ -188,6 +342,7 @@ impl GraphD {
                         Kind::RandULike => Node::new("RandomUniformLike", &opn, &ins_r, &outs_r),
                         Kind::RandNLike => Node::new("RandomNormalLike", &opn, &ins_r, &outs_r),
                         Kind::Dropout => Node::new("Dropout", &opn, &ins_r, &outs_r),
+                        Kind::If => body.as_ref().unwrap().to_onnx_node(ins_r[0], outs_r[0], rows, seeds, &id.to_string()),
                     };
                     match kind {
                         Kind::RandU | Kind::RandN | Kind::RandULike | Kind::RandNLike => {
@@ -220,11 +375,14 @@ impl GraphD {
         }
         let vi = |id: usize| {
             let (d, r) = self.dt_rows(id);
+            if d == Dt::B {
+                return ValueInfo::fixed(&name(id), dt::BOOL, &[]);
+            }
             ValueInfo::fixed(
                 &name(id),
                 match d {
                     Dt::I => dt::INT32,
-                    Dt::F => dt::FLOAT,
+                    _ => dt::FLOAT,
                 },
                 &[r as i64, COLS as i64],
             )
@@ -256,8 +414,14 @@ fn gen_graph(rng: &mut Rng, big: bool) -> GraphD {
     let n_consts = rng.usize_below(3);
     let mut inputs = vec![];
     for _ in 0..n_inputs {
-        let d = if rng.chance(2, 3) { Dt::I } else { Dt::F };
-        let r = 1 + rng.usize_below(2);
+        let d = if rng.chance(1, 8) {
+            Dt::B
+        } else if rng.chance(2, 3) {
+            Dt::I
+        } else {
+            Dt::F
+        };
+        let r = if d == Dt::B { 0 } else { 1 + rng.usize_below(2) };
         nodes.push(NodeD::V(d, r));
         inputs.push(nodes.len() - 1);
         avail.push(nodes.len() - 1);
@@ -274,7 +438,7 @@ fn gen_graph(rng: &mut Rng, big: bool) -> GraphD {
     for _ in 0..n_ops {
         // choose a kind that is applicable
         for _attempt in 0..20 {
-            let k = rng.usize_below(if rand_heavy { 18 } else { 13 });
+            let k = rng.usize_below(if rand_heavy { 21 } else { 14 });
             let kind = match k {
                 0 | 1 => Kind::Add,
                 2 => Kind::Sub,
@@ -285,7 +449,8 @@ fn gen_graph(rng: &mut Rng, big: bool) -> GraphD {
                 8 => Kind::CastF,
                 9 => Kind::CastI,
                 10 | 11 => Kind::Split,
-                12 | 13 => Kind::Dropout,
+                12 | 17 => Kind::Dropout,
+                13 | 18 | 19 => Kind::If,
                 14 => Kind::RandU,
                 15 => Kind::RandN,
                 16 => Kind::RandULike,
@@ -296,6 +461,7 @@ fn gen_graph(rng: &mut Rng, big: bool) -> GraphD {
                     .iter()
                     .copied()
                     .filter(|&v| match &nodes[v] {
+                        NodeD::V(Dt::B, _) | NodeD::C(Dt::B, _, _) => f(Dt::B, 99),
                         NodeD::V(d, r) => f(*d, *r),
                         NodeD::C(d, r, _) => f(*d, *r),
                         _ => false,
@@ -317,9 +483,44 @@ fn gen_graph(rng: &mut Rng, big: bool) -> GraphD {
             let mut det = true;
             let mut seeded = true;
             let mut drop_second = false;
+            let mut body: Option<IfBody> = None;
             match kind {
+                Kind::If => {
+                    // condition: an existing bool value, or a fresh `true` constant
+                    let cond = match pick(rng, &nodes, &|d, r| d == Dt::B && r == 99) {
+                        Some(c) if rng.chance(1, 2) => c,
+                        _ => {
+                            nodes.push(NodeD::C(Dt::B, 0, vec![1]));
+                            avail.push(nodes.len() - 1);
+                            nodes.len() - 1
+                        }
+                    };
+                    let rows = 1 + rng.usize_below(2);
+                    fn gen_body(rng: &mut Rng, caps: &[usize], depth: usize) -> Body {
+                        match rng.usize_below(if depth < 2 { 6 } else { 4 }) {
+                            0 | 1 => Body::RandU,
+                            2 if !caps.is_empty() => Body::NegCap(*rng.pick(caps)),
+                            2 | 3 => Body::ConstId,
+                            _ => Body::Nested(Box::new(IfBody {
+                                then_b: gen_body(rng, caps, depth + 1),
+                                else_b: gen_body(rng, caps, depth + 1),
+                            })),
+                        }
+                    }
+                    // outer f32 values of the right shape can be captured
+                    let caps: Vec<usize> = avail
+                        .iter()
+                        .copied()
+                        .filter(|&v| matches!(&nodes[v], NodeD::V(Dt::F, r) | NodeD::C(Dt::F, r, _) if *r == rows))
+                        .collect();
+                    let b = IfBody { then_b: gen_body(rng, &caps, 0), else_b: gen_body(rng, &caps, 0) };
+                    det = b.deep_det();
+                    body = Some(b);
+                    ins = vec![Some(cond)];
+                    new_vals.push((Dt::F, rows));
+                }
                 Kind::Add | Kind::Sub | Kind::Mul => {
-                    let Some(a) = pick(rng, &nodes, &|_, _| true) else { continue };
+                    let Some(a) = pick(rng, &nodes, &|d, _| d != Dt::B) else { continue };
                     let (da, ra) = dr(&nodes, a);
                     let Some(b) = pick(rng, &nodes, &|d, _| d == da) else { continue };
                     let (_, rb) = dr(&nodes, b);
@@ -327,7 +528,7 @@ fn gen_graph(rng: &mut Rng, big: bool) -> GraphD {
                     new_vals.push((da, ra.max(rb)));
                 }
                 Kind::Neg | Kind::Abs | Kind::Identity => {
-                    let Some(a) = pick(rng, &nodes, &|_, _| true) else { continue };
+                    let Some(a) = pick(rng, &nodes, &|d, _| d != Dt::B) else { continue };
                     ins = vec![Some(a)];
                     new_vals.push(dr(&nodes, a));
                 }
@@ -342,7 +543,7 @@ fn gen_graph(rng: &mut Rng, big: bool) -> GraphD {
                     new_vals.push((Dt::I, dr(&nodes, a).1));
                 }
                 Kind::Split => {
-                    let Some(a) = pick(rng, &nodes, &|_, r| r == 2) else { continue };
+                    let Some(a) = pick(rng, &nodes, &|d, r| d != Dt::B && r == 2) else { continue };
                     ins = vec![Some(a)];
                     let d = dr(&nodes, a).0;
                     new_vals.push((d, 1));
@@ -364,7 +565,7 @@ fn gen_graph(rng: &mut Rng, big: bool) -> GraphD {
                     det = false;
                 }
                 Kind::RandULike | Kind::RandNLike => {
-                    let Some(a) = pick(rng, &nodes, &|_, _| true) else { continue };
+                    let Some(a) = pick(rng, &nodes, &|d, _| d != Dt::B) else { continue };
                     ins = vec![Some(a)];
                     new_vals.push((Dt::F, dr(&nodes, a).1));
                     det = false;
@@ -384,7 +585,7 @@ fn gen_graph(rng: &mut Rng, big: bool) -> GraphD {
                 nodes.push(NodeD::V(*d, *r));
                 outs.push(Some(nodes.len() - 1));
             }
-            let op = NodeD::O { kind, ins, outs: outs.clone(), det, seeded };
+            let op = NodeD::O { kind, ins, outs: outs.clone(), det, seeded, body };
             if op_first {
                 nodes[base] = op;
             } else {
@@ -396,7 +597,7 @@ fn gen_graph(rng: &mut Rng, big: bool) -> GraphD {
     }
     let mut g = GraphD { nodes, inputs, outputs: vec![] };
     // declared outputs: sinks, plus occasionally something else
-    let used: BTreeSet<usize> = g.op_ids().iter().flat_map(|&p| g.op_ins(p)).collect();
+    let used: BTreeSet<usize> = g.op_ids().iter().flat_map(|&p| g.op_deps(p)).collect();
     let mut outs: Vec<usize> = g
         .value_ids()
         .into_iter()
@@ -415,6 +616,7 @@ fn gen_graph(rng: &mut Rng, big: bool) -> GraphD {
 
 fn make_value(rng: &mut Rng, d: Dt, rows: usize) -> Value {
     match d {
+        Dt::B => Value::Int32Tensor(RTensor::from_data(&[], vec![1i32])),
         Dt::I => Value::Int32Tensor(RTensor::from_data(
             &[rows, COLS],
             (0..rows * COLS).map(|_| rng.range_i64(-3, 3) as i32).collect::<Vec<_>>(),
@@ -500,8 +702,20 @@ fn load(g: &GraphD, bytes: Vec<u8>, optimize: bool) -> Result<Loaded, String> {
 type Vals = HashMap<usize, Value>;
 
 fn run_on(l: &Loaded, supplied: &[(usize, &Value)], outs: &[usize]) -> Result<Result<Vec<Value>, RunError>, String> {
-    let inputs: Vec<(NodeId, ValueOrView)> =
-        supplied.iter().map(|(i, v)| (l.ids[i], ValueOrView::from(*v))).collect();
+    run_on_own(l, supplied, outs, false)
+}
+
+/// `own`: pass every supplied value as an owned `Value` instead of a view.
+fn run_on_own(
+    l: &Loaded,
+    supplied: &[(usize, &Value)],
+    outs: &[usize],
+    own: bool,
+) -> Result<Result<Vec<Value>, RunError>, String> {
+    let inputs: Vec<(NodeId, ValueOrView)> = supplied
+        .iter()
+        .map(|(i, v)| (l.ids[i], if own { ValueOrView::Value((*v).clone()) } else { ValueOrView::from(*v) }))
+        .collect();
     let out_ids: Vec<NodeId> = outs.iter().map(|o| l.ids[o]).collect();
     hcommon::catch(|| l.model.run(inputs, &out_ids, None))
 }
@@ -520,7 +734,7 @@ fn expected_leaves(g: &GraphD, s: &[usize], outs: &[usize]) -> (BTreeSet<usize>,
         }
         if let Some(p) = g.source(v) {
             if plan_ops.insert(p) {
-                stack.extend(g.op_ins(p));
+                stack.extend(g.op_deps(p));
             }
         }
     }
@@ -535,7 +749,7 @@ fn expected_leaves(g: &GraphD, s: &[usize], outs: &[usize]) -> (BTreeSet<usize>,
     loop {
         let mut changed = false;
         for &p in &plan_ops {
-            if !kept.contains(&p) && g.op_det(p) && g.op_ins(p).iter().all(|d| comp.contains(d)) {
+            if !kept.contains(&p) && g.op_det(p) && g.op_deps(p).iter().all(|d| comp.contains(d)) {
                 kept.insert(p);
                 comp.extend(g.op_outs(p));
                 changed = true;
@@ -552,7 +766,7 @@ fn expected_leaves(g: &GraphD, s: &[usize], outs: &[usize]) -> (BTreeSet<usize>,
     let mut pruned_ins: BTreeSet<usize> = BTreeSet::new();
     for &p in &plan_ops {
         if !kept.contains(&p) {
-            pruned_ins.extend(g.op_ins(p).into_iter().filter(|d| comp.contains(d)));
+            pruned_ins.extend(g.op_deps(p).into_iter().filter(|d| comp.contains(d)));
         }
     }
     let exp = cand.into_iter().filter(|v| outs.contains(v) || pruned_ins.contains(v)).collect();
@@ -585,7 +799,7 @@ fn run_case(c: &Case, out: &mut Out, own: bool, s: &[usize], outs: &[usize], res
 
     // --- the three calls on the unoptimised model
     let l = c.m0;
-    let full = run_on(l, &all, outs);
+    let full = run_on_own(l, &all, outs, own);
     let part = {
         let inputs: Vec<(NodeId, ValueOrView)> = s
             .iter()
@@ -639,7 +853,7 @@ fn run_case(c: &Case, out: &mut Out, own: bool, s: &[usize], outs: &[usize], res
             let mut fin_in: Vec<(usize, &Value)> =
                 leaves.iter().map(|(nid, v)| (l.back[nid], v)).collect();
             fin_in.extend(rest.iter().map(|i| (*i, &c.vals[i])));
-            let fin = run_on(l, &fin_in, outs);
+            let fin = run_on_own(l, &fin_in, outs, own);
             let fin_s = match &fin {
                 Err(_) => "panic".to_string(),
                 Ok(Err(e)) => err_class(e),
@@ -665,7 +879,7 @@ fn run_case(c: &Case, out: &mut Out, own: bool, s: &[usize], outs: &[usize], res
                 }
                 // leaf-val: each returned value equals its value in a full run
                 if leaf_set.len() == leaf_ids.len() && !leaf_ids.is_empty() {
-                    match run_on(l, &all, &leaf_ids) {
+                    match run_on_own(l, &all, &leaf_ids, own) {
                         Ok(Ok(lv)) => {
                             for (k, ((_, a), b)) in leaves.iter().zip(lv.iter()).enumerate() {
                                 if bits(a) != bits(b) {
@@ -734,11 +948,11 @@ fn nofold_check(g: &GraphD, out: &mut Out, vals: &Vals) {
     let rand_outs: Vec<usize> = g
         .op_ids()
         .into_iter()
-        .filter(|&p| {
-            matches!(
-                g.nodes[p],
-                NodeD::O { kind: Kind::RandU | Kind::RandN | Kind::RandULike | Kind::RandNLike, .. }
-            )
+        .filter(|&p| match &g.nodes[p] {
+            NodeD::O { kind: Kind::RandU | Kind::RandN | Kind::RandULike | Kind::RandNLike, .. } => true,
+            // an `If` whose taken branch (all conditions are true) ends in a random operator
+            NodeD::O { kind: Kind::If, body: Some(b), .. } => b.then_b.taken_random(),
+            _ => false,
         })
         .flat_map(|p| g.op_outs(p))
         .collect();
@@ -791,6 +1005,178 @@ fn nofold_check(g: &GraphD, out: &mut Out, vals: &Vals) {
     out.case(&req, "nofold", pf.as_deref(), true);
 }
 
+// ---------------------------------------------------------------- graph-level requests (`gp`)
+//
+// `Graph::partial_run` on graphs built through the real graph API (`rten::verif` hook), to reach
+// what ONNX files cannot express: subgraph captures whose *name does not resolve* in the graph
+// (third disjunct of `prune_plan`'s `prune_op`), captures that are also inputs, captures of
+// values that are missing.  Operators: `Identity`, and `If` whose then-branch is
+// `Identity(<first capture>)` (or a subgraph constant) with the listed capture names.
+// Request: `gp <nodes> <S> <O>`; answer `ids=<leaf ids>` / `err:<class>` / `panic`.
+
+#[derive(Clone, Debug)]
+enum GNode {
+    V,
+    /// constant; `true` = i32 scalar 1 (usable as `If` condition)
+    C(bool),
+    /// Identity
+    Id { inp: usize, out: usize },
+    /// If(cond){ then: Identity(cap0) | const } with capture names `n<c>` (c >= nodes.len(): unresolved)
+    If { cond: usize, out: usize, caps: Vec<usize> },
+}
+
+fn gp_descr(nodes: &[GNode]) -> String {
+    hcommon::join(
+        nodes.iter().map(|n| match n {
+            GNode::V => "V".to_string(),
+            GNode::C(_) => "C".to_string(),
+            GNode::Id { inp, out } => format!("O/{inp}/{out}/1.0/-"),
+            GNode::If { cond, out, caps } => format!(
+                "O/{cond}/{out}/{}/{}",
+                if caps.is_empty() { "1.2.0.0" } else { "1.2.1.1.0.0" },
+                ids_str(caps)
+            ),
+        }),
+        ";",
+    )
+}
+
+fn gp_build(nodes: &[GNode]) -> rten::verif::Graph {
+    use rten::verif::{op_identity, op_if, Graph as RGraph};
+    let mut g = RGraph::new();
+    for (i, n) in nodes.iter().enumerate() {
+        let nm = name(i);
+        let id = match n {
+            GNode::V => g.add_value(Some(&nm), None, None),
+            GNode::C(true) => g.add_constant(Some(&nm), RTensor::from(1i32).into_arc()),
+            GNode::C(false) => g.add_constant(Some(&nm), RTensor::from(2.5f32).into_arc()),
+            GNode::Id { inp, out } => g.add_op(
+                Some(&nm),
+                op_identity(),
+                &[Some(NodeId::from_u32(*inp as u32))],
+                &[Some(NodeId::from_u32(*out as u32))],
+            ),
+            GNode::If { cond, out, caps } => {
+                let mut sub = RGraph::new();
+                let cap_ids: Vec<NodeId> =
+                    caps.iter().map(|c| sub.add_value(Some(&name(*c)), None, None)).collect();
+                sub.set_captures(&cap_ids);
+                if let Some(c0) = cap_ids.first() {
+                    let o = sub.add_value(Some("sub_out"), None, None);
+                    sub.add_op(Some("sub_id"), op_identity(), &[Some(*c0)], &[Some(o)]);
+                    sub.set_output_ids(&[o]);
+                } else {
+                    let c = sub.add_constant(Some("sub_c"), RTensor::from(7.0f32).into_arc());
+                    sub.set_output_ids(&[c]);
+                }
+                g.add_op(
+                    Some(&nm),
+                    op_if(sub, RGraph::new()),
+                    &[Some(NodeId::from_u32(*cond as u32))],
+                    &[Some(NodeId::from_u32(*out as u32))],
+                )
+            }
+        };
+        assert_eq!(id.as_u32() as usize, i);
+    }
+    g
+}
+
+fn gp_cases(rng: &mut Rng, out: &mut Out, n_graphs: usize) {
+    for _ in 0..n_graphs {
+        // values first (so that operators can refer to later values too), then operators
+        let n_in = 1 + rng.usize_below(3);
+        let mut nodes: Vec<GNode> = vec![];
+        for _ in 0..n_in {
+            nodes.push(GNode::V);
+        }
+        nodes.push(GNode::C(true));
+        let cond = nodes.len() - 1;
+        if rng.chance(1, 2) {
+            nodes.push(GNode::C(false));
+        }
+        let n_ops = 1 + rng.usize_below(4);
+        // reserve output value nodes
+        let first_out = nodes.len();
+        for _ in 0..n_ops {
+            nodes.push(GNode::V);
+        }
+        let total = first_out + 2 * n_ops;
+        for k in 0..n_ops {
+            let outv = first_out + k;
+            // candidates for inputs / captures: inputs, constants, outputs of earlier operators
+            let mut cands: Vec<usize> = (0..first_out).filter(|&i| i != cond).collect();
+            cands.extend(first_out..first_out + k);
+            if rng.chance(1, 2) {
+                nodes.push(GNode::Id { inp: *rng.pick(&cands), out: outv });
+            } else {
+                let mut caps = vec![];
+                for _ in 0..rng.usize_below(3) {
+                    let c = if rng.chance(1, 4) { total + rng.usize_below(3) } else { *rng.pick(&cands) };
+                    if !caps.contains(&c) {
+                        caps.push(c);
+                    }
+                }
+                // condition: the i32 constant, or a graph input (then supplied as an i32 scalar)
+                let c = if rng.chance(1, 5) { rng.usize_below(n_in) } else { cond };
+                nodes.push(GNode::If { cond: c, out: outv, caps });
+            }
+        }
+        let descr = gp_descr(&nodes);
+        let g = gp_build(&nodes);
+        let n = nodes.len();
+        for mask in 0..(1u32 << n_in) {
+            let s: Vec<usize> = (0..n_in).filter(|b| mask >> b & 1 == 1).collect();
+            for _ in 0..2 {
+                let k = 1 + rng.usize_below(2);
+                let mut outs: Vec<usize> = (0..n).filter(|&i| !matches!(nodes[i], GNode::Id { .. } | GNode::If { .. })).collect();
+                rng.shuffle(&mut outs);
+                outs.truncate(k);
+                let req = format!("gp {} {} {}", descr, ids_str(&s), ids_str(&outs));
+                let vals: Vec<Value> = s
+                    .iter()
+                    .map(|i| {
+                        let is_cond = nodes.iter().any(|nd| matches!(nd, GNode::If { cond, .. } if cond == i));
+                        if is_cond {
+                            Value::Int32Tensor(RTensor::from(1i32))
+                        } else {
+                            Value::FloatTensor(RTensor::from(1.5f32))
+                        }
+                    })
+                    .collect();
+                let inputs: Vec<(NodeId, ValueOrView)> =
+                    s.iter().zip(vals.iter()).map(|(i, v)| (NodeId::from_u32(*i as u32), ValueOrView::from(v))).collect();
+                let out_ids: Vec<NodeId> = outs.iter().map(|o| NodeId::from_u32(*o as u32)).collect();
+                let unresolved = nodes.iter().any(|nd| matches!(nd, GNode::If { caps, .. } if caps.iter().any(|c| *c >= n)));
+                out.bucket(if unresolved { "gp:unresolved-capture" } else { "gp:resolved" });
+                let ans = match hcommon::catch(|| g.partial_run(inputs, &out_ids, None)) {
+                    Err(_) => "panic".to_string(),
+                    Ok(Err(e)) => err_class(&e),
+                    Ok(Ok(leaves)) => {
+                        let ids: Vec<usize> = leaves.iter().map(|(id, _)| id.as_u32() as usize).collect();
+                        format!("ids={}", ids_str(&ids))
+                    }
+                };
+                // oracle: an `If` with an unresolved capture name is never evaluated: its output is not returned
+                let mut pf = None;
+                if let Some(rest) = ans.strip_prefix("ids=") {
+                    let ids: Vec<usize> = rest.split(',').filter_map(|x| x.parse().ok()).collect();
+                    for nd in &nodes {
+                        if let GNode::If { out: o, caps, .. } = nd {
+                            if caps.iter().any(|c| *c >= n) && ids.contains(o) {
+                                pf = Some(format!("capture: output {o} of an If capturing a value from outside the graph was evaluated"));
+                            }
+                        }
+                    }
+                } else if ans == "panic" {
+                    pf = Some("capture: Graph::partial_run panicked".to_string());
+                }
+                out.case(&req, &ans, pf.as_deref(), unresolved);
+            }
+        }
+    }
+}
+
 fn main() {
     let args = hcommon::parse_args();
     if std::env::var_os("C04_DEBUG").is_none() {
@@ -832,6 +1218,15 @@ fn main() {
         let case = Case { g: &g, descr: &descr, m0: &m0, m1: m1.as_ref(), vals: &vals };
         let has_rand = g.op_ids().iter().any(|&p| !g.op_det(p));
         out.bucket(if has_rand { "graph:nondet" } else { "graph:det" });
+        for p in g.op_ids() {
+            if let NodeD::O { body: Some(b), det, .. } = &g.nodes[p] {
+                out.bucket(&format!("if:depth={}", b.then_b.depth().max(b.else_b.depth())));
+                out.bucket(if *det { "if:det" } else { "if:nondet" });
+                if !g.op_caps(p).is_empty() {
+                    out.bucket("if:captures");
+                }
+            }
+        }
         out.bucket(&format!("graph:inputs={}", g.inputs.len()));
 
         // output sets
@@ -889,6 +1284,7 @@ fn main() {
             nofold_check(&g, &mut out, &vals);
         }
     }
+    gp_cases(&mut rng, &mut out, if args.thorough { 3000 } else { 300 });
     out.note(&format!("graphs={n_graphs} load_fail={load_fail}"));
     out.finish("answer = returned leaf ids (in order) + outcome class of run(leaves ++ rest); PROPFAIL = compose / leaf-val / leaf-set / nofold oracle");
 }
